@@ -101,6 +101,66 @@ def gen_program(rng, depth):
     return kind, exprs, g
 
 
+class ProbeGen:
+    """fixed argument specs for the hand-written probe programs (same interface as CGen where the driver needs it)"""
+
+    def __init__(self, rng, spec):
+        self.rng = rng; self.spec = spec; self.hits = {}
+        self.args = {k: self.newvalue(k) for k in spec}
+
+    def newvalue(self, name):
+        dtype, shape, lo, hi = self.spec[name]
+        r = numpy.random.default_rng(self.rng.getrandbits(32))
+        if dtype == bool: return r.integers(0, 2, shape).astype(bool)
+        if dtype == int: return r.integers(lo, hi + 1, shape)
+        return r.integers(-8, 9, shape) / 4.
+
+
+def probe_programs(rng):
+    """hand-written programs, one per anchored mechanism, so that every run exercises each of them (random programs hit them only
+    with some probability): in-place accumulation next to arguments, views of arguments, cached constants used by rerun code,
+    possible views of cached constants, mixed (cached + rerun) loops after loop fusion, Guard, scatter/add.at, tuples sharing subterms"""
+    c3 = ev.constant(3)
+    def A(name, shape=(3,), dtype=float):
+        return ev.Argument(name, tuple(ev.constant(n) for n in shape), dtype)
+    a, b = A('a'), A('b')
+    A2 = A('A', (3, 3))
+    n = ev.Sum(ev.BoolToInt(A('m', (3,), bool)))
+    i = ev.InRange(A('i', (2,), int), c3)
+    K = ev.Sin(ev.constant(numpy.arange(3.)))
+    K2 = ev.Cos(ev.constant(numpy.arange(6.).reshape(2, 3) / 4))
+    spec = dict(a=(float, (3,), None, None), b=(float, (3,), None, None), A=(float, (3, 3), None, None), m=(bool, (3,), None, None), i=(int, (2,), 0, 2))
+    li = ev.loop_index('p', 3)
+    fm = types.frozenmultiset
+    progs = {
+        'add-args': (ev.Add(fm([a, b])),),
+        'add-arg-const': (ev.Add(fm([a, K])),),
+        'add3': (ev.Add(fm([ev.Add(fm([a, K])), ev.Multiply(fm([b, K]))])),),
+        'arg-itself': (a,),
+        'arg-views': (ev.Transpose(A2, (1, 0)), ev.InsertAxis(a, ev.constant(2)), ev.TakeDiag(A2)),
+        'cached-const-returned': (K, ev.Multiply(fm([K, a]))),
+        'insertaxis-const-arglen': (ev.InsertAxis(K, n),),
+        'takeslice-const': (ev._TakeSlice(K2, ev.constant(2), ev.Minimum(n, ev.constant(1))),),
+        'get-const': (ev._Get(K2, ev.Minimum(n, ev.constant(2))),),
+        'take-const-argidx': (ev.Take(K, i),),
+        'inflate-arg': (ev.Inflate(ev.Take(a, i), i, c3),),
+        'diagonalize': (ev.Diagonalize(ev.Add(fm([a, K]))),),
+        'guard': (ev.Add(fm([ev.Guard(ev.Multiply(fm([a, a]))), ev.Guard(K)])),),
+        'loopsum-arg': (ev.loop_sum(ev.Multiply(fm([ev.Take(a, li), ev.Sin(ev.IntToFloat(li))])), li),),
+        'loop-mixed': (ev.Multiply(fm([ev.loop_concatenate(ev.InsertAxis(ev.Sin(ev.IntToFloat(li)), ev.constant(1)), li), a])),
+                       ev.loop_sum(ev.Multiply(fm([ev.Take(a, li), ev.IntToFloat(li)])), li)),
+        'tuple-shared': (ev.Add(fm([a, K])), ev.Multiply(fm([ev.Add(fm([a, K])), b])), K),
+        'ravel-unravel': (ev.Ravel(ev.InsertAxis(K, ev.constant(2))), ev.Unravel(ev.Add(fm([ev.constant(numpy.arange(6.)), ev.Ravel(ev.InsertAxis(a, ev.constant(2)))])), ev.constant(2), c3)),
+    }
+    out = []
+    for name, exprs in progs.items():
+        used = set()
+        for e in exprs: used |= {x.name for x in e.arguments if isinstance(x, ev.Argument)}
+        for simp, opt in ((False, False), (True, True)):
+            out.append(('probe:' + name, exprs, ProbeGen(rng, {k: v for k, v in spec.items() if k in used}), simp, opt))
+    return out
+
+
 # ---------------------------------------------------------------------------------------------- argument variants
 
 def layout_variant(rng, x):
@@ -433,21 +493,29 @@ def run(c):
     spec_reqs = []; spec_meta = []
     nprog = 0; nhist_ok = 0
     verdict_counts = collections.Counter()
-    for i in range(N):
-        depth = c.rng.choice(range(1, maxdepth + 1))
-        try:
-            kind, exprs, g = gen_program(c.rng, depth)
-        except Exception as ex:
-            c.count('generator-exception:' + type(ex).__name__); continue
+    probes = probe_programs(c.rng)
+    for i in range(len(probes) + N):
+        if i < len(probes):
+            kind, exprs, g, simp, opt = probes[i]
+        else:
+            depth = c.rng.choice(range(1, maxdepth + 1))
+            try:
+                kind, exprs, g = gen_program(c.rng, depth)
+            except Exception as ex:
+                c.count('generator-exception:' + type(ex).__name__); continue
+            simp = c.rng.random() < .7; opt = c.rng.random() < .7
+            if kind == 'guarded': simp = False      # simplification removes Guard nodes
         root = exprs if len(exprs) > 1 else exprs[0]
-        simp = c.rng.random() < .7; opt = c.rng.random() < .7
-        if kind == 'guarded': simp = False      # simplification removes Guard nodes
-        store = []
         def compile_fn(cache=True):
             return ev.compile(root, _simplify=simp, _optimize=opt, cache_const_intermediates=cache, stats=False)
-        with S.capture(store):
+        # nested compilations (eval_once during simplification) are captured too: the function asked for is the LAST one
+        store1, store2 = [], []
+        with S.capture(store1):
             k1, f1 = X.guarded(lambda: compile_fn(True), 20)
+        with S.capture(store2):
             k2, f2 = X.guarded(lambda: compile_fn(False), 20)
+        store = [store1[-1] if store1 else None, store2[-1] if store2 else None]
+        c.count('nested-compilations-seen', max(0, len(store1) - 1) + max(0, len(store2) - 1))
         if k1 != 'ok' or k2 != 'ok':
             c.count('compile-' + (k1 if k1 != 'ok' else k2)); continue   # termination / exceptions of the simplifier are C01's business
         nprog += 1
@@ -456,7 +524,7 @@ def run(c):
         key = tuple(e.__nutils_hash__ for e in exprs)
         # ---- static: translate both scripts
         prog_static = []
-        for (script, glob), cache in zip(store[:2], (True, False)):
+        for (script, glob), cache in zip([x for x in store if x is not None], (True, False)):
             try:
                 line, t = S.translate(script, glob)
             except S.Unknown as u:
@@ -494,7 +562,7 @@ def run(c):
             if m['prog'] == i: m['dyn'] = [f[0] for f in hr.findings]
         for sig, what, detail in hr.findings:
             c.failing_input(sig, what, dict(detail, kind=kind, tree=X.describe(exprs[0], g.args), simplify=simp, optimize=opt, pickled=pack(exprs, dict(g.args)),
-                                            script=store[0][0] if store else None))
+                                            script=store[0][0] if store and store[0] else None))
         # ---- spec points (exact value of the un-simplified tree in Lean)
         for args, real in hr.spec_points[:2 if quick else 3]:
             try:
@@ -555,7 +623,12 @@ def run(c):
 
     c.log('static verdicts done')
     # ------------------------------------------------------------------ spec values
-    sans = X.lean_requests(c, spec_reqs) if spec_reqs else []
+    try:
+        sans = X.lean_requests(c, spec_reqs) if spec_reqs else []
+    except Infra as e:
+        # the exact-value oracle is an exploration stream: a request the Expr driver cannot digest must not hide the verdicts above
+        c.count('spec:driver-failed'); c.log('note: Expr driver failed on the spec requests: %s' % str(e)[:200])
+        sans = []
     nspec = collections.Counter()
     for a, (exprs, args, real, kind) in zip(sans, spec_meta):
         if 'bad' in a: raise Infra('Expr driver rejected a request: %r' % a['bad'][:300])
